@@ -6,13 +6,16 @@
    statement reads and SETs): the new value is computed from the value in the
    statement's READ SNAPSHOT.  Atomic steps, one per segment between two
    schedule points of the real code:
-     OLock     GraphEngine::begin_write   (write_lock mutex; blocked while held)
-     OSnap     Db::snapshot               (copies the published state)
-     OCommit s execute_mixed + WriteTxn::commit up to publish_run
-     OUnlock   drop of the write guard at the end of commit
-   Two program orders:
-     order_fixed  [OLock; OSnap; OCommit; OUnlock]   the code after the repair
-     order_old    [OSnap; OLock; OCommit; OUnlock]   the pinned tree (snapshot before lock) *)
+     OLock      GraphEngine::begin_write   (write_lock mutex; blocked while held)        [.. capi.write.locked]
+     OSnap      Db::snapshot               (copies the published state)                  [.. capi.write.snapshot]
+     OLog s     execute_mixed + WriteTxn::commit up to the WAL fsync: the new value is computed from the
+                snapshot and made durable, not yet visible                              [.. commit.logged]
+     OPublish s id map, node labels, publish_run: the new value becomes the published state [.. commit.run]
+     OUnlock    drop of the write guard when commit returns                              [.. capi.write.done]
+   Program orders:
+     order_fixed         [OLock; OSnap; OLog; OPublish; OUnlock]   the code as it is
+     order_old           [OSnap; OLock; OLog; OPublish; OUnlock]   the pinned tree (snapshot before lock)
+     order_early_unlock  [OLock; OSnap; OLog; OUnlock; OPublish]   write guard dropped before the run is published *)
 From Coq Require Import List ZArith Bool Arith.
 From NDB Require Import Conc.Sched.
 Import ListNotations.
@@ -28,9 +31,9 @@ Definition eval (s : stmt) (v : Z) : Z :=
   | SCond a b => if v =? a then b else v
   end.
 
-Inductive op := OSnap | OLock | OCommit (s : stmt) | OUnlock.
+Inductive op := OSnap | OLock | OLog (s : stmt) | OPublish (s : stmt) | OUnlock.
 
-Inductive evkind := ESnap | ELock | ECommit | EUnlock.
+Inductive evkind := ESnap | ELock | ELog | EPublish | EUnlock.
 
 Record shared := {
   cell : Z;                          (* committed value of the property *)
@@ -47,17 +50,19 @@ Definition sem (o : op) (t : nat) (sh : shared) (snap : Z) : option (shared * Z)
       | None => Some ({| cell := cell sh; lock := Some t; hist := hist sh; trace := trace sh ++ [(t, ELock)] |}, snap)
       | Some _ => None
       end
-  | OCommit s => Some ({| cell := eval s snap; lock := lock sh; hist := hist sh ++ [(t, s)];
-                          trace := trace sh ++ [(t, ECommit)] |}, snap)
+  | OLog s => Some ({| cell := cell sh; lock := lock sh; hist := hist sh; trace := trace sh ++ [(t, ELog)] |}, eval s snap)
+  | OPublish s => Some ({| cell := snap; lock := lock sh; hist := hist sh ++ [(t, s)];
+                           trace := trace sh ++ [(t, EPublish)] |}, snap)
   | OUnlock => Some ({| cell := cell sh; lock := None; hist := hist sh; trace := trace sh ++ [(t, EUnlock)] |}, snap)
   end.
 
-Inductive order := order_fixed | order_old.
+Inductive order := order_fixed | order_old | order_early_unlock.
 
 Definition group (o : order) (s : stmt) : list op :=
   match o with
-  | order_fixed => [OLock; OSnap; OCommit s; OUnlock]
-  | order_old => [OSnap; OLock; OCommit s; OUnlock]
+  | order_fixed => [OLock; OSnap; OLog s; OPublish s; OUnlock]
+  | order_old => [OSnap; OLock; OLog s; OPublish s; OUnlock]
+  | order_early_unlock => [OLock; OSnap; OLog s; OUnlock; OPublish s]
   end.
 
 Fixpoint prog (o : order) (ss : list stmt) : list op :=
@@ -67,7 +72,7 @@ Fixpoint prog (o : order) (ss : list stmt) : list op :=
   end.
 
 Definition kind_of (o : op) : evkind :=
-  match o with OSnap => ESnap | OLock => ELock | OCommit _ => ECommit | OUnlock => EUnlock end.
+  match o with OSnap => ESnap | OLock => ELock | OLog _ => ELog | OPublish _ => EPublish | OUnlock => EUnlock end.
 
 Definition acfg := cfg shared Z op.
 
